@@ -73,15 +73,17 @@ def tl(a):
 
 
 # ------------------------------------------------------------------------------------ models
-def rand_model(c, tree=False):
+def rand_model(c, tree=False, long=False):
     from renormalizer.model import Model, Op
     from renormalizer.model.basis import BasisSimpleElectron, BasisSHO, BasisHalfSpin, BasisMultiElectron
     rng = c.rng
     qn_size = 2 if rng.random() < 0.35 else 1
     nsite = int(rng.choice([1, 2, 3, 3, 4, 4, 5])) if not tree else int(rng.choice([2, 3, 4, 5, 6]))
+    if long:        # ten or more sites: more than ten bonds, two-digit indices in the file
+        nsite = int(rng.integers(10, 14))
     basis, spec, edofs = [], [], []
     for s in range(nsite):
-        kinds = ["elec", "elec", "spin"] + (["sho", "melec"] if qn_size == 1 else ["melec2"])
+        kinds = ["elec", "elec", "spin"] + ([] if long else (["sho", "melec"] if qn_size == 1 else ["melec2"]))
         k = str(rng.choice(kinds))
         if s == 0 and rng.random() < 0.5:
             k = "elec"
@@ -290,7 +292,8 @@ def part_chain(c, n):
     from renormalizer.utils import CompressConfig, CompressCriteria
     rng, run = c.rng, c.run
     for _ in range(n):
-        basis, terms, spec, qn_size, qntot = rand_model(c)
+        long = bool(rng.random() < 0.15)
+        basis, terms, spec, qn_size, qntot = rand_model(c, long=long)
         try:
             model = Model(basis, terms)
             mpo = Mpo(model)
@@ -298,6 +301,9 @@ def part_chain(c, n):
             run.count("rejected:model:" + type(e).__name__)
             continue
         kind = str(rng.choice(["mps", "mps", "mps", "mpdm", "mpo"] if INCLUDE_MPO else ["mps", "mps", "mpdm"]))
+        if long:
+            kind = "mps"           # dense operators of 10-13 sites are out of reach
+            run.count("roundtrip:long-chain")
         info = dict(kind=kind, sites=spec, qn_size=qn_size, qntot=np.asarray(qntot).tolist())
         if kind == "mpo":
             obj, hist = mpo.copy(), ["Mpo(model)"]
@@ -763,9 +769,10 @@ def classify(path, log, run_id):
         return "corrupt", None
 
 
-def prepare_dir(d, name, f_state, b_state):
+def prepare_dir(d, name, f_state, b_state, t_state="absent"):
     os.makedirs(d, exist_ok=True)
-    for path, st in [(os.path.join(d, name + ".npz"), f_state), (os.path.join(d, name + ".npz.bak"), b_state)]:
+    for path, st in [(os.path.join(d, name + ".npz"), f_state), (os.path.join(d, name + ".npz.bak"), b_state),
+                     (os.path.join(d, name + ".npz.tmp.npz"), t_state)]:
         if st == "absent":
             continue
         buf = io.BytesIO()
@@ -781,12 +788,13 @@ def part_crash(c, quick):
     Job = make_job_class()
     nsteps = 3 if quick else 4
     states = ["absent", "partial", "complete"]
-    init_states = [(f, b) for f in states for b in states]
+    # result file, backup file, temporary file of an interrupted dump (what a killed run can leave behind)
+    init_states = [(f, b, t) for f in states for b in states for t in states]
     run_id = 100
     real_os, real_np = tdmps.os, tdmps.np
     try:
         for dump_mps in ([None] if quick else [None, "one", "all"]):
-            for (f0, b0) in init_states:
+            for (f0, b0, t0) in init_states:
                 # reference run: record the event list for this initial state
                 def one_run(target, nonexistent_dir=False):
                     nonlocal run_id
@@ -797,7 +805,7 @@ def part_crash(c, quick):
                     if nonexistent_dir:
                         d = os.path.join(d, "sub", "dir")
                     else:
-                        prepare_dir(d, "job", f0, b0)
+                        prepare_dir(d, "job", f0, b0, t0)
                     tdmps.os, tdmps.np = OsProxy(inj), NpProxy(inj)
                     job = None
                     crashed = False
@@ -810,11 +818,11 @@ def part_crash(c, quick):
                         tdmps.os, tdmps.np = real_os, real_np
                     return inj, d, job, crashed, run_id
 
-                inj, d, job, crashed, rid = one_run(None, nonexistent_dir=(f0 == b0 == "absent" and rng.random() < 0.5))
+                inj, d, job, crashed, rid = one_run(None, nonexistent_dir=(f0 == b0 == t0 == "absent" and rng.random() < 0.5))
                 events = list(inj.events)
                 dumps = list(inj.dump_of_event)
                 run.count("crash:events-per-run", len(events))
-                info0 = dict(part="crash", initial=dict(job_npz=f0, job_npz_bak=b0), nsteps=nsteps, dump_mps=dump_mps,
+                info0 = dict(part="crash", initial=dict(job_npz=f0, job_npz_bak=b0, job_npz_tmp=t0), nsteps=nsteps, dump_mps=dump_mps,
                              fs_calls=events)
                 F, B = os.path.join(d, "job.npz"), os.path.join(d, "job.npz.bak")
                 cf, cb = classify(F, job.log, rid), classify(B, job.log, rid)
@@ -833,13 +841,14 @@ def part_crash(c, quick):
                     for ph in phases:
                         inj2, d2, job2, crashed2, rid2 = one_run((idx, ph))
                         c.evals += 1
-                        c.distinct.add((f0, b0, dump_mps, idx, ph))
+                        c.distinct.add((f0, b0, t0, dump_mps, idx, ph))
                         if not crashed2 or inj2.fired is None:
                             c.violate("crash:harness:crash-point-not-reached", dict(info0, index=idx, phase=ph))
                             continue
                         t = inj2.fired[3]
                         F2, B2 = os.path.join(d2, "job.npz"), os.path.join(d2, "job.npz.bak")
-                        cf2, cb2 = classify(F2, job2.log, rid2), classify(B2, job2.log, rid2)
+                        log2 = job2.log if job2 is not None else {}       # killed inside the constructor: nothing written yet
+                        cf2, cb2 = classify(F2, log2, rid2), classify(B2, log2, rid2)
                         run.count(f"crash:state:{cf2[0]}/{cb2[0]}")
                         run.count(f"crash:call:{name}:{ph}")
                         good = [s for (k, s) in (cf2, cb2) if k == "complete" and s >= t - 1]
@@ -849,9 +858,9 @@ def part_crash(c, quick):
                                 c.violate(f"crash:no-complete-result-file:{ph.split('-')[0]}:{cls}",
                                           dict(info0, crash_at=dict(call_index=idx, call=name, phase=ph, dump_of_step=t),
                                                job_npz=cf2, job_npz_bak=cb2))
-                        elif t == 1 and "complete" in (f0, b0):
-                            # first dump of a job (re)started into a directory that holds a complete result of an earlier
-                            # run: that result ("foreign") or the new one must be there at every instant
+                        elif t <= 1 and "complete" in (f0, b0):
+                            # construction and first dump of a job (re)started into a directory that holds a complete result of
+                            # an earlier run: that result ("foreign") or the new one must be there at every instant
                             if cf2[0] not in ("foreign", "complete") and cb2[0] not in ("foreign", "complete"):
                                 cls = "savez" if "np." in name else name.split(".")[-1]
                                 c.violate(f"crash:restart:first-dump-destroys-previous-result:{ph.split('-')[0]}:{cls}",
